@@ -410,7 +410,8 @@ def evalForInteger : Nat → Node → Int → Int → String → Obj → M Obj
     if endV - i < 0 then return err "for loop with negative count"
     if i ≥ endV then return lastEval
     if name != "" then
-      let _ ← envSet (← curEnv) name (.int (Int64.ofInt i))
+      let oerr ← envSet (← curEnv) name (.int (Int64.ofInt i))
+      if oerr.isError then return oerr
     let r ← evalI fuel body
     match r with
     | .error _ => pure r
@@ -428,7 +429,8 @@ def evalForList : Nat → Node → Obj → String → Obj → M Obj
     if objLen list ≤ 0 then return lastEval
     let v ← objFirst list
     let rest ← objRest list
-    let _ ← envSet (← curEnv) name v
+    let oerr ← envSet (← curEnv) name v
+    if oerr.isError then return oerr
     let r ← evalI fuel body
     match r with
     | .error _ => pure r
